@@ -222,8 +222,22 @@ def one_case(cs, idx, counters):
             cmd.append('-udf')
         if opts['dups']:
             cmd.append('-scan-for-duplicates')
+        boot_req = []     # (source file, load size asked for, boot info table asked for) per boot entry
         if opts['boot']:
-            cmd += ['-b', 'bootimg.bin', '-c', 'boot.cat', '-no-emul-boot', '-boot-load-size', '4']
+            l1 = rng.choice([4, 4, 1, 8])
+            bit = rng.random() < 0.3
+            cmd += ['-b', 'bootimg.bin', '-c', 'boot.cat', '-no-emul-boot', '-boot-load-size', str(l1)] + (['-boot-info-table'] if bit else [])
+            boot_req.append(('bootimg.bin', l1, bit))
+            for k in range(rng.choice([0, 0, 1, 2])):
+                # further boot entries, each with its own parameters
+                nm = 'efi%d.img' % k
+                data_ = random.Random(50 + k).randbytes(rng.choice([2048, 4096, 5000]))
+                with open(os.path.join(src, nm), 'wb') as f:
+                    f.write(data_)
+                desc[nm] = ('file', data_)
+                lk = rng.choice([2, 8, 16, 4])
+                cmd += ['-eltorito-alt-boot', '-e', nm, '-no-emul-boot', '-boot-load-size', str(lk)]
+                boot_req.append((nm, lk, False))
         hidden_names = []
         if opts['hide']:
             files = [r for r, (k, _) in desc.items() if k == 'file' and '/' not in r and r != 'bootimg.bin']
@@ -266,6 +280,37 @@ def one_case(cs, idx, counters):
         for k, d in dec.all_problems():
             if not k.startswith('sort:') and 'sort' not in k:
                 vio.append({'key': 'image:%s' % k, 'detail': d})
+        if boot_req and boot_req[0][2]:
+            # -boot-info-table patches bytes 8..63 of the boot file as stored: PVD sector, file sector,
+            # file length, checksum of the rest
+            from harness.indep import eltorito as _iet
+            et0 = _iet.decode(data)
+            if et0.initial is not None:
+                import struct as _st
+                src_ = desc['bootimg.bin'][1]
+                words = _st.unpack('<%dI' % ((len(src_) - 64) // 4), src_[64:64 + (len(src_) - 64) // 4 * 4])
+                table = _st.pack('<IIII', 16, et0.initial.load_rba, len(src_), sum(words) & 0xffffffff) + b'\x00' * 40
+                expected['bootimg.bin'] = ('file', src_[:8] + table + src_[64:])
+                counters['boot_info_tables_expected'] = counters.get('boot_info_tables_expected', 0) + 1
+        # boot options: one catalog entry per -b / -e, in order, with the load size given for it,
+        # pointing at the sector where that file's bytes are
+        if boot_req:
+            from harness.indep import eltorito as _iet
+            et = _iet.decode(data)
+            entries = ([et.initial] if et.initial is not None else []) + [e for sec in et.sections for e in sec.entries]
+            counters['boot_entries_checked'] = counters.get('boot_entries_checked', 0) + len(entries)
+            if not et.present or len(entries) != len(boot_req):
+                vio.append({'key': 'boot:entries', 'detail': '%s: %d boot entries asked for, catalog has %d' % (optkey, len(boot_req), len(entries))})
+            else:
+                for k, (e, (nm, lsize, bit)) in enumerate(zip(entries, boot_req)):
+                    if e.sector_count != lsize:
+                        vio.append({'key': 'boot:load-size', 'detail': '%s: entry %d (%s): load size %d, -boot-load-size %d was given for it' % (optkey, k, nm, e.sector_count, lsize)})
+                    if e.media != 0:
+                        vio.append({'key': 'boot:media', 'detail': '%s: entry %d (%s): media type %d, -no-emul-boot was given' % (optkey, k, nm, e.media)})
+                    want_ = expected[nm][1] if nm in expected else desc[nm][1]
+                    got_ = data[e.load_rba * 2048:e.load_rba * 2048 + len(want_)]
+                    if got_ != want_ and nm not in hidden_names:
+                        vio.append({'key': 'boot:load-rba', 'detail': '%s: entry %d: sector %d does not hold the bytes of %s' % (optkey, k, e.load_rba, nm)})
         # plain view: every source file exactly once under a legal, distinct identifier
         files_src = [r for r, (k, _) in expected.items() if k == 'file']
         # (the placeholder a relocated directory leaves at its original place is a record with a CL
